@@ -160,8 +160,18 @@ impl<'xml> Deserializer<'xml> {
                     DeEvent::Start(x)
                 }
 
+                Event::PI(x) => {
+                    // The target of a processing instruction is a name other than `xml` in any case
+                    // (XML 1.0, production [17]).
+                    let target = x.target();
+                    if !is_xml_name(target) || target.eq_ignore_ascii_case(b"xml") {
+                        return Err(DeError::InvalidContent);
+                    }
+                    continue;
+                }
+
                 // ignore the others
-                Event::Comment(_) | Event::Decl(_) | Event::PI(_) | Event::DocType(_) => continue,
+                Event::Comment(_) | Event::Decl(_) | Event::DocType(_) => continue,
             };
             break Ok(de);
         }
@@ -406,6 +416,13 @@ impl fmt::Debug for Deserializer<'_> {
 /// White space of XML 1.0: space, tab, carriage return, line feed
 const fn is_xml_whitespace(b: u8) -> bool {
     matches!(b, b' ' | b'\t' | b'\r' | b'\n')
+}
+
+/// A name of XML 1.0 (production [5]); every character outside ASCII is taken as a name character
+fn is_xml_name(s: &[u8]) -> bool {
+    let start = |b: u8| b.is_ascii_alphabetic() || b == b':' || b == b'_' || !b.is_ascii();
+    let Some((&first, rest)) = s.split_first() else { return false };
+    start(first) && rest.iter().all(|&b| start(b) || b.is_ascii_digit() || b == b'-' || b == b'.')
 }
 
 /// Translates every CR LF pair and every CR that is not followed by LF to a single LF,
